@@ -90,14 +90,13 @@ func (l *lexer) Lex(lval *yySymType) int {
 			}
 			return lval.yys
 
-		case scanner.Float:
-			lval.yys = int(token)
-			lval.string = text
-
+		case scanner.Float, scanner.Char, scanner.RawString:
+			// Not a part of the language. The scanner tokens are negative,
+			// the parser treats negative tokens as no token and silently skips them.
 			if debugLexer {
-				fmt.Printf("FLOAT %v %v %v\n", l.s.Position, token, text)
+				fmt.Printf("INVALID %v %v %v\n", l.s.Position, token, text)
 			}
-			return lval.yys
+			return yyLexErrorf(l, "unexpected %v", text)
 
 		case scanner.String:
 			lval.yys = STRING
